@@ -11,10 +11,12 @@ na_reasons = {}
 nap = os.path.join(HERE, "props", "not_applicable.json")
 if os.path.exists(nap):
     na_reasons = json.load(open(nap))
+# only properties the integrator has reviewed and listed in props/INTEGRATED are claimed
+integrated = set(open(os.path.join(HERE, "props", "INTEGRATED")).read().split())
 for p in props:
     pid = p["id"]
     frag = os.path.join(HERE, "props", pid, "manifest.json")
-    if os.path.exists(frag):
+    if pid in integrated and os.path.exists(frag):
         f = json.load(open(frag))
         c = {"property_id": pid,
              "quick_cmd": "./check %s --tier quick" % pid,
